@@ -51,6 +51,9 @@ func relocate(w *model.World, from, to string) *model.World {
 			m := map[string]interface{}{}
 			for k, x := range c {
 				if s, ok := x.(string); ok && k == "$ref" {
+					if strings.HasPrefix(to, "http") {
+						s = strings.Replace(s, "?rev=2", "", 1) // a query is only irrelevant on file locations
+					}
 					switch {
 					case strings.HasPrefix(s, from):
 						m[k] = strings.Replace(s, from, to, 1)
